@@ -14,6 +14,9 @@ declare -A ONLY=( [C01_1]=Maze [C01_2]=GraphColoring [C01_3]=Snake [C02_1]=PacMa
  [C01_4]=player_step [C01_5]=BinPack@2x4x3x2x2x3 [C01_6]=struct-reward [C02_4]=Maze@toy [C02_5]=LevelBasedForaging [C02_6]=RubiksCube [C03_4]=Game2048 [C03_5]=LevelBasedForaging [C03_6]=TSP
  [C11_4]=N6V3 [C11_5]=SlidingTilePuzzle [C11_6]=PacMan [C13_4]=SlidingTilePuzzle [C13_5]=MultiToSingle [C13_6]=JobShop [C14_4]=Cleaner [C14_5]=TSP [C14_6]=Maze@3x3
  [C15_4]=Knapsack/dm_env [C15_5]=multi-to-single [C15_6]=TSP [C16_4]=conversions [C16_5]=conversions [C16_6]=conversions
+ [C04_7]=mask-vs-movement [C04_8]=Maze [C04_9]=MMST@3 [C06_7]=MMST [C06_8]=BinPack [C06_9]=FlatPack [C07_7]=LevelBasedForaging@5x3x1 [C07_8]=PacMan [C07_9]=Snake
+ [C09_7]=Tetris [C09_8]=Knapsack [C09_9]=GraphColoring [C12_7]=RobotWarehouse [C12_8]=CVRP [C12_9]=LevelBasedForaging [C17_4]=Rubik [C17_5]=reset-solvable [C17_6]=Rubik/n=4
+ [C18_4]=registry [C18_5]=registry [C18_6]=shipped/RubiksCube [C19_4]=tree_utils [C19_5]=tree_utils [C19_6]=equality/mismatch
  [C17_1]=Rubik/n=4 [C17_2]=SlidingTilePuzzle@2 [C17_3]=env-solved [C18_1]=grammar [C18_2]=registry [C18_3]=shipped/Sudoku [C19_1]=tree_utils [C19_2]=tree_utils [C19_3]=equality )
 HERE="$(cd "$(dirname "$0")" && pwd)"
 IDS=("$@"); [ ${#IDS[@]} -eq 0 ] && IDS=($(ls "$ROOT"))
